@@ -143,6 +143,30 @@ class Facts:
         sig["user_in"] = sorted(set(users))
         sig["mgr_alive"] = "mgr" in roles
         sig["n_threads"] = len(threads)
+        # workers: is a live one blocked acquiring the result queue's write lock?
+        import linecache
+
+        blocked = 0
+        wstate = []
+        for wpid in self.workers():
+            wt = stacks.get("stacks.%s.txt" % wpid)
+            if not wt:
+                continue
+            for frames in parse_faulthandler(wt):
+                if not frames:
+                    continue
+                fn, ln, func = frames[0]
+                src = linecache.getline(fn, ln)
+                where = "%s:%s" % (fn.split("/loky/")[-1] if "/loky/" in fn else fn.split("/")[-1], func)
+                wstate.append(where)
+                # innermost frames: SemLock.__enter__ called from `with self._wlock:` in SimpleQueue.put
+                for fn2, ln2, func2 in frames[:2]:
+                    if fn2.endswith("loky/backend/queues.py") and func2 == "put" and "_wlock" in linecache.getline(fn2, ln2):
+                        if fn.endswith("loky/backend/synchronize.py") and func == "__enter__" or fn2 == fn:
+                            blocked += 1
+                            break
+        sig["worker_blocked_on_result_wlock"] = blocked > 0
+        sig["workers_in"] = sorted(set(wstate))
         busy = [p for p in st.get("procs", []) if p.get("pid") == self.driver_pid]
         sig["driver_cpu_ticks"] = busy[0].get("cpu_ticks_in_1s") if busy else None
         return sig
